@@ -120,6 +120,10 @@ def classify(res):
     if "skip" in res:
         return "skip", res["skip"]
     st = res["impl"]["status"]
+    for v in res["verdicts"]:   # a run whose values leave the model's integer range is skipped, not judged
+        p = v["py"]
+        if p and "stuck" in p and isinstance(p["stuck"], list) and len(p["stuck"]) > 1 and p["stuck"][1] == ["overflow"]:
+            v["py"] = {"skip": "value outside the model's integer range"}
     pyv = [v["py"] for v in res["verdicts"]]
     if all(p is None or "skip" in p for p in pyv):
         if st == "ok" and res["py"].get("mustreject"):
@@ -128,6 +132,8 @@ def classify(res):
     for p in pyv:
         if p and "stuck" in p:
             why = p["stuck"]
+            if isinstance(why, list) and len(why) > 1 and why[1] == ["overflow"]:
+                return "skip", "value outside the model's integer range"
             if isinstance(why, list) and len(why) > 1 and isinstance(why[1], list) and why[1] and why[1][0] == "MustReject":
                 return ("mustreject-accepted", why[1][1:]) if st == "ok" else (st, res["impl"].get("error"))
             return ("unmodelled", why) if st == "ok" else (st, res["impl"].get("error"))
